@@ -413,6 +413,10 @@ impl endpoint::Session for ListenerSession {
         self.session.set_session_stop_reason(reason)
     }
 
+    fn abandon_pending_deliveries(&mut self) {
+        self.session.abandon_pending_deliveries()
+    }
+
     fn session_stop_reason(&self) -> &Arc<OnceLock<SessionStopReason>> {
         self.session.session_stop_reason()
     }
